@@ -32,6 +32,11 @@ def run_check(pid, tier, seed, replay=None):
     if not pc["ok"] or pc["discharged"] != pc["obligations"]:
         problems.append(("proof", "proof obligations of Properties_%s.v no longer check (%d/%d): %s" %
                          (pid, pc["discharged"], pc["obligations"], pc["log"][-600:]), None))
+    chk = None
+    if tier == "thorough" and not replay and pc["ok"]:
+        chk = core.coqchk_property(pid)
+        if not chk["ok"]:
+            problems.append(("proof", "coqchk does not accept Properties_%s.vo and its dependencies without axioms (axioms: %s): %s" % (pid, chk["axioms"], chk["log"][-400:]), None))
     ok, mlog = core.ensure_model()
     if not ok:
         print("FRAMEWORK-ERROR: model extraction/build failed\n" + mlog[-2000:]); return 2
@@ -211,6 +216,7 @@ def run_check(pid, tier, seed, replay=None):
                class_histogram=dict(allcls.most_common(40)), samples=samples[:8],
                correspondence_mismatches=total_mism, repo_hash=core.repo_hash(), notes=notes[:10])
     cov.update(extra_cov)
+    if chk: cov["coqchk"] = dict(cmd=chk["cmd"], accepted=chk["ok"], axioms=chk["axioms"], wall_s=chk["wall_s"])
     core.write_evidence(pid, tier, seed, cov, time.monotonic() - t0, nviol,
                         assumptions=getattr(prop, "ASSUMPTIONS", []))
     shutil.rmtree(rundir, ignore_errors=True)
